@@ -2,7 +2,7 @@
 From Coq Require Import List NArith ZArith Znumtheory Bool.
 From V.Base Require Import Hex BigEndian.
 From V.C16 Require Import Model Proofs FloatProofs Vrf VrfProofs VrfInst VrfEll Curve CurveProofs FieldMod CurveClosure
-  CurveDecompress CurveAdd CurveComplete CurveEncode Sha3 Header.
+  CurveDecompress CurveAdd CurveComplete CurveEncode Sha3 Header KeyCodec.
 Import ListNotations.
 Local Open Scope Z_scope.
 
@@ -102,6 +102,22 @@ Proof.
          (fun bh pre => verify_block_vrf_binds Hsh V p bh pre pk wm ts)).
 Qed.
 Print Assumptions C16_block_message_binding.
+
+(* key transport through hex text (GetHexString / Hex2VRFPublicKey / Hex2VRFPrivateKey): fixed-width
+   hex, so every non-empty key comes back unchanged — same length, leading zero bytes kept *)
+Theorem C16_key_hex_roundtrip : forall b : bytes, bytes_ok b -> b <> [] ->
+  from_hex (to_hex b) = b /\ length (from_hex (to_hex b)) = length b.
+Proof. exact (fun b H1 H2 => conj (hex_roundtrip b H1 H2) (hex_roundtrip_length b H1 H2)). Qed.
+Print Assumptions C16_key_hex_roundtrip.
+
+(* the proposer's worker answers a cast time with the proof for H^(delta-1)(base.Random), delta from
+   (castTime, base.CurTime): the answer does not depend on the calls made before on the same worker *)
+Theorem C16_worker_history_independent :
+  forall (Hsh : bytes -> bytes) (P : bytes -> bytes -> bytes) sk random base_cur (h1 h2 : list Z) cast,
+  last (worker_run Hsh P sk random base_cur (h1 ++ [cast])) [] =
+  last (worker_run Hsh P sk random base_cur (h2 ++ [cast])) [].
+Proof. exact worker_history_independent. Qed.
+Print Assumptions C16_worker_history_independent.
 
 (* ---------------- quality number ---------------- *)
 
